@@ -29,7 +29,9 @@ Proof. unfold page_toks_v. destruct (page_tail c kd l o); auto with exdb. Qed.
 Lemma ex_concat v ss : Forall (ex v) ss -> ex v (List.concat ss).
 Proof. induction 1; cbn [List.concat]; auto with exdb. Qed.
 Lemma ex_cte v nm og ts : ex v ts -> ex v ((false, AId RCte None nm og) :: ts).
-Proof. intros H. constructor; [reflexivity|exact H]. Qed.
+Proof. intros H. constructor; [|exact H]. split; [reflexivity|]. Abort.
+Lemma ex_cte v nm og ts : og_adm v og = true -> ex v ts -> ex v ((false, AId RCte None nm og) :: ts).
+Proof. intros Ha H. constructor; [split; [reflexivity|exact Ha]|exact H]. Qed.
 Lemma ex_if v (b : bool) a c : ex v a -> ex v c -> ex v (if b then a else c).
 Proof. destruct b; auto. Qed.
 #[export] Hint Resolve ex_mark_group ex_page ex_concat ex_cte ex_if : exdb.
@@ -40,20 +42,21 @@ Proof. intros H. unfold ctx_item. auto with exdb. Qed.
 
 Lemma table_toks_ex v og c t : ctx_ok v og c -> ex v (table_toks c og t).
 Proof.
-  intros Hc. unfold table_toks. destruct Hc as [Hq [Hs [Ha Hk]]].
-  apply ex_falias; [intros a; cbn [exact_tok snd]; rewrite Ha, Hq; reflexivity|exact Hk|].
-  assert (Hb : ex v [(false, AId RIdent (q c) (tname t) og)]) by (constructor; [exact Hq|constructor]).
+  intros Hc. unfold table_toks. pose proof Hc as (Hq & Hs & Ha & Hk & Hadm).
+  apply ex_falias; [intros a; cbn [exact_q snd]; rewrite Ha, Hq; reflexivity|exact Hk|exact Hadm|exact I|].
+  assert (Hb : ex v [(false, AId RIdent (q c) (tname t) og)]) by (apply ex_ident; [exact Hc|apply ex_nil]).
   destruct (tschema t) as [|s0 ch]; [exact Hb|].
   apply ex_app; [|apply ex_T; exact Hb]. apply ex_tjoin. apply Forall_map. apply Forall_forall. intros x _.
-  constructor; [exact Hq|constructor].
+  apply ex_ident; [exact Hc|apply ex_nil].
 Qed.
 #[export] Hint Resolve table_toks_ex : exdb.
 
 (* the origin bookkeeping of _set_kwargs_defaults *)
-Lemma defaults_ok v og0 c kin : ctx_ok v og0 (kc kin) -> ctx_ok v (origin_after c kin og0) (kc (defaults c kin)).
+Lemma defaults_ok v og0 c kin :
+  v_adm v c = true -> ctx_ok v og0 (kc kin) -> ctx_ok v (origin_after c kin og0) (kc (defaults c kin)).
 Proof.
-  intros [Hq [Hs [Ha Hk]]]. unfold defaults, origin_after. destruct (k_abs kin); cbn [kc mk_k].
-  - repeat split; cbn; try reflexivity. exact Hq.
+  intros Hc (Hq & Hs & Ha & Hk & Hadm). unfold defaults, origin_after. destruct (k_abs kin); cbn [kc mk_k].
+  - repeat split; cbn; try reflexivity; assumption.
   - repeat split; assumption.
 Qed.
 
@@ -63,6 +66,7 @@ Variable rho : cls -> cls.
 Variable it : kctx -> origin -> list tref -> ctx -> item -> res (list dtok).
 Variable qt : kctx -> origin -> bool -> bool -> bool -> option string -> query -> res (list dtok).
 Variable v : conv.
+Hypothesis Hadm : forall c0, v_adm v (rho c0) = true.
 Hypothesis Hit : forall k og srcs c i ts, ctx_ok v og c -> it k og srcs c i = Ok ts -> ex v ts.
 Hypothesis Hqt : forall kin og0 wal sub pv ali x ts, ctx_ok v og0 (kc kin) -> qt kin og0 wal sub pv ali x = Ok ts -> ex v ts.
 
@@ -96,7 +100,7 @@ Proof.
   intros Hc H. unfold src_toks in H. destruct (fst sn).
   - inv_ok H. auto with exdb.
   - tt H. assumption.
-  - inv_ok H. auto with exdb.
+  - inv_ok H. apply ex_cte; [exact (proj2 (proj2 (proj2 (proj2 Hc))))|apply ex_nil].
 Qed.
 Lemma from_toks_ex k og cx sn ts : ctx_ok v og cx -> from_toks qt k og cx sn = Ok ts -> ex v ts.
 Proof.
@@ -126,10 +130,14 @@ Lemma with_toks_ex kk og withs ts : ctx_ok v og (kc kk) -> with_toks qt kk og wi
 Proof.
   intros Hc H. unfold with_toks in H. destruct withs as [|w0 wr]; [inversion H; apply ex_nil|].
   inv_ok H. apply ex_T, ex_tjoin. eapply rmapM_ok; [|eassumption].
-  intros x b Hx. cbn beta in Hx. inv_ok Hx. tts. auto 8 with exdb.
+  intros x b Hx. cbn beta in Hx. inv_ok Hx. tts.
+  apply ex_cte; [exact (proj2 (proj2 (proj2 (proj2 Hc))))|]. auto 8 with exdb.
 Qed.
 Lemma alias_ref_tok_ex og base a : ctx_ok v og base -> ex v [(false, AId RAlias (or_ostr (aq base) (q base)) a og)].
-Proof. intros [Hq [_ [Ha _]]]. constructor; [|constructor]. cbn [exact_tok snd]. rewrite Ha, Hq. reflexivity. Qed.
+Proof.
+  intros (Hq & _ & Ha & _ & Hadm0). constructor; [|constructor]. split; [|exact Hadm0].
+  cbn [exact_q snd]. rewrite Ha, Hq. reflexivity.
+Qed.
 Lemma gitem_toks_ex kk og srcs cx base gba selects y ts :
   ctx_ok v og cx -> ctx_ok v og base -> gitem_toks it kk og srcs cx base gba selects y = Ok ts -> ex v ts.
 Proof.
@@ -162,11 +170,11 @@ Proof.
 Qed.
 
 Lemma ex_qalias og c base body ali (w : bool) :
-  ctx_ok v og base -> ex v body ->
+  v_adm v c = true -> ctx_ok v og base -> ex v body ->
   ex v (if w then falias (RQAlias c) og body ali (q base) (qalias_quote c) (askw base) else body).
 Proof.
-  intros [Hq [_ [_ Hk]]] Hb. destruct w; [|exact Hb].
-  apply ex_falias; [intros a; cbn [exact_tok snd]; rewrite Hq; reflexivity|exact Hk|exact Hb].
+  intros Hc (Hq & _ & _ & Hk & Hadm0) Hb. destruct w; [|exact Hb].
+  apply ex_falias; [intros a; cbn [exact_q snd]; rewrite Hq; reflexivity|exact Hk|exact Hadm0|left; exact Hc|exact Hb].
 Qed.
 
 Ltac clause_facts :=
@@ -200,20 +208,20 @@ Lemma qsel_toks_ex kin og0 wal sub pv ali c0 withs distinct selects from joins w
   ex v ts.
 Proof.
   intros Hk H. unfold qsel_toks in H.
-  pose proof (defaults_ok v og0 (rho c0) kin Hk) as Hb.
+  pose proof (defaults_ok v og0 (rho c0) kin (Hadm c0) Hk) as Hb.
   set (k := defaults (rho c0) kin) in *. set (og := origin_after (rho c0) kin og0) in *.
   cbv zeta in H. destruct selects as [|s0 sr]; [inversion H; apply ex_nil|].
   inv_ok H. clause_facts.
-  apply ex_qalias; [exact Hb|]. apply ex_vparen.
+  apply ex_qalias; [apply Hadm|exact Hb|]. apply ex_vparen.
   repeat (apply ex_app || apply ex_T || apply ex_if || apply ex_tjoin || apply ex_nil || apply ex_page
-          || (apply ex_opt_list; [exact I|]) || assumption).
+          || (apply ex_opt_list; [split; exact I|]) || assumption).
 Qed.
 
 Lemma qins_toks_ex kin og0 wal sub pv ali c0 into columns rows sel replace ts :
   ctx_ok v og0 (kc kin) -> qins_toks rho it qt kin og0 wal sub pv ali c0 into columns rows sel replace = Ok ts -> ex v ts.
 Proof.
   intros Hk H. unfold qins_toks in H.
-  pose proof (defaults_ok v og0 (rho c0) kin Hk) as Hb.
+  pose proof (defaults_ok v og0 (rho c0) kin (Hadm c0) Hk) as Hb.
   set (k := defaults (rho c0) kin) in *. set (og := origin_after (rho c0) kin og0) in *.
   cbv zeta in H. inv_bind H.
   assert (Hbase : ctx_ok v og (set_wn (kc k) false)) by auto with exdb.
@@ -230,7 +238,7 @@ Proof.
     destruct (Nat.eqb (nselects y) 0); [inversion H; apply ex_nil|]. inv_bind H.
     match goal with E : qt _ _ _ _ _ _ _ = Ok ?s |- _ =>
       assert (ex v s) by (eapply Hqt; [|exact E]; cbn [kc with_c mk_k]; exact Hbase) end.
-    inversion H; subst; clear H. apply ex_qalias; [exact Hbase|]. apply ex_vparen. auto 8 with exdb.
+    inversion H; subst; clear H. apply ex_qalias; [apply Hadm|exact Hbase|]. apply ex_vparen. auto 8 with exdb.
   - inv_ok H. apply ex_T, ex_app; [auto with exdb|]. apply ex_app; [exact Hcols|]. apply ex_T, ex_app; [|auto with exdb].
     apply ex_tjoin. eapply rmapM_ok; [|eassumption]. intros row b Hx. cbn beta in Hx. inv_ok Hx.
     apply ex_tjoin. eapply rmapM_ok; [|eassumption]. intros ? ? ?. eapply Hit; [|eassumption]. auto with exdb.
@@ -240,7 +248,7 @@ Lemma qupd_toks_ex kin og0 c0 tbl sets from joins wheres l ts :
   ctx_ok v og0 (kc kin) -> qupd_toks rho it qt kin og0 c0 tbl sets from joins wheres l = Ok ts -> ex v ts.
 Proof.
   intros Hk H. unfold qupd_toks in H.
-  pose proof (defaults_ok v og0 (rho c0) kin Hk) as Hb.
+  pose proof (defaults_ok v og0 (rho c0) kin (Hadm c0) Hk) as Hb.
   set (k := defaults (rho c0) kin) in *. set (og := origin_after (rho c0) kin og0) in *.
   cbv zeta in H. destruct sets as [|s0 sr]; [inversion H; apply ex_nil|].
   inv_ok H. clause_facts.
@@ -248,14 +256,14 @@ Proof.
   { eapply rmapM_ok; [|eassumption]. intros x b Hx. cbn beta in Hx. inv_ok Hx. tts. auto with exdb. }
   apply ex_V, ex_app; [auto with exdb|].
   repeat (apply ex_app || apply ex_T || apply ex_V || apply ex_tjoin || apply ex_nil || apply ex_page
-          || (apply ex_opt_list; [exact I|]) || assumption).
+          || (apply ex_opt_list; [split; exact I|]) || assumption).
 Qed.
 
 Lemma qdel_toks_ex kin og0 sub pv c0 from wheres ts :
   ctx_ok v og0 (kc kin) -> qdel_toks rho it qt kin og0 sub pv c0 from wheres = Ok ts -> ex v ts.
 Proof.
   intros Hk H. unfold qdel_toks in H.
-  pose proof (defaults_ok v og0 (rho c0) kin Hk) as Hb.
+  pose proof (defaults_ok v og0 (rho c0) kin (Hadm c0) Hk) as Hb.
   set (k := defaults (rho c0) kin) in *. set (og := origin_after (rho c0) kin og0) in *.
   cbv zeta in H. inv_ok H. clause_facts. apply ex_vparen. apply ex_app; [|assumption].
   destruct (cls_is_clickhouse (rho c0)); apply ex_V;
@@ -270,7 +278,7 @@ Proof.
   { destruct (term_alias (fst td)) as [a0|].
     - destruct (truthy_ostr (Some a0) && existsb (option_eqb String.eqb (Some a0)) sa).
       + match goal with E : Ok _ = Ok _ |- _ => inversion E; subst; clear E end.
-        constructor; [exact (proj1 Hc)|constructor].
+        constructor; [split; [exact (proj1 Hc)|exact (proj2 (proj2 (proj2 (proj2 Hc))))]|constructor].
       + tts. assumption.
     - tts. assumption. }
   destruct (snd td); auto with exdb.
@@ -292,8 +300,8 @@ Proof.
     - match goal with E : bind _ _ = Ok _ |- _ => inv_ok E end. apply ex_T, ex_tjoin.
       eapply rmapM_ok; [|eassumption]. intros x b Hx. eapply sitem_toks_ex; [|exact Hx]; assumption. }
   assert (Hbody : forall b, ex v b -> ex v (if wal then falias RSAlias og0 b ali (q (kc kin)) (aq (kc kin)) (askw (kc kin)) else b)).
-  { intros b Hb. destruct wal; [|exact Hb]. destruct Hk as [Hq [_ [Ha Hkw]]].
-    apply ex_falias; [intros ?; cbn [exact_tok snd]; rewrite Ha, Hq; reflexivity|exact Hkw|exact Hb]. }
+  { intros b Hb. destruct wal; [|exact Hb]. destruct Hk as (Hq & _ & Ha & Hkw & Hadm0).
+    apply ex_falias; [intros ?; cbn [exact_q snd]; rewrite Ha, Hq; reflexivity|exact Hkw|exact Hadm0|exact I|exact Hb]. }
   apply Hbody. apply ex_vparen. auto 8 with exdb.
 Qed.
 
@@ -310,15 +318,16 @@ Qed.
 End Exact.
 
 Theorem toks_exact rho v n :
+  (forall c0, v_adm v (rho c0) = true) ->
   (forall k og srcs c i ts, ctx_ok v og c -> itoks rho n k og srcs c i = Ok ts -> ex v ts) /\
   (forall kin og0 wal sub pv ali x ts, ctx_ok v og0 (kc kin) -> qtoks rho n kin og0 wal sub pv ali x = Ok ts -> ex v ts).
 Proof.
-  induction n as [|n [IHi IHq]].
+  intros Hadm. induction n as [|n [IHi IHq]].
   - split; intros; discriminate.
   - split.
     + intros k og srcs c i ts Hc H. cbn [itoks] in H. eapply item_toks_ex; [| |exact Hc|exact H]; cbn beta; assumption.
     + intros kin og0 wal sub pv ali x ts Hc H. cbn [qtoks] in H.
-      eapply query_toks_ex; [| |exact Hc|exact H]; cbn beta; assumption.
+      eapply query_toks_ex; [exact Hadm| | |exact Hc|exact H]; cbn beta; assumption.
 Qed.
 
 (* ================= 2. the erased token list does not depend on the class labels ================= *)
